@@ -142,5 +142,8 @@ def c15_rest(ctx, facts, nr):
            n7 > 0 and not bad7, "%s:%d" % (a.file, a.line), None if not bad7 else sorted(set(bad7))[0])
 
     # ---- C15.6 observation (not armed): the accept loop leaves on any accept() error
+    # ---- C15.8 the requests that were complete when the client closed are delivered: every queued request wakes a receiver (C07's rule)
+    import queue_rules as QR_
+    QR_.rule_notify_after_push(ctx, "C15.8")
     ctx.note("observation (not a violation): the accept thread `break`s on any Listener::accept error; on Linux a reset connection in the backlog is still returned successfully, so no vanishing-client input is known to trigger it")
     return res
